@@ -5,7 +5,15 @@ package beancount
 
 //@ def okPst(p *model.Posting) bool := p != nil && p.Account != nil
 //@ def okTrx(t *model.Transaction) bool := t != nil && (forall i int :: {t.Postings[i]} 0 <= i && i < len(t.Postings) ==> okPst(t.Postings[i]))
+// Open-before-use (property C16): an account used by a posting of a checked journal was either opened by
+// the journal itself on or before that day (openedInJournal: what `check` enforces) or it is one of the
+// valuation accounts that Valuate invents for its adjustments (isValuation: the Income:<path> mirror of
+// an asset/liability account) - for those Transcode itself has to write the open directive.
+//@ spec openedInJournal(a *account.Account) bool
+//@ spec isValuation(a *account.Account) bool
 //@ def okDay(d *journal.Day) bool := d != nil
+//@     && (forall i int, m int :: {d.Transactions[i].Postings[m]} 0 <= i && i < len(d.Transactions) && 0 <= m && m < len(d.Transactions[i].Postings) ==>
+//@          openedInJournal(d.Transactions[i].Postings[m].Account) || isValuation(d.Transactions[i].Postings[m].Account))
 //@     && (forall i int :: {d.Transactions[i]} 0 <= i && i < len(d.Transactions) ==> okTrx(d.Transactions[i]))
 //@     && (forall i int :: {d.Openings[i]} 0 <= i && i < len(d.Openings) ==> d.Openings[i] != nil)
 //@     && (forall i int :: {d.Closings[i]} 0 <= i && i < len(d.Closings) ==> d.Closings[i] != nil)
@@ -48,6 +56,8 @@ package beancount
 //@   loop 2 invariant 0 <= $i && $i <= len($range) && tlen() == entry(tlen()) && c != nil && openValAccounts != nil
 //@   loop 3 invariant 0 <= $i && $i <= len($range) && tlen() == entry(tlen()) && c != nil && openValAccounts != nil && okDay(day)
 //@   loop 4 invariant 0 <= $i && $i <= len($range) && tlen() == entry(tlen()) && c != nil && openValAccounts != nil && okDay(day)
+//@   loop 5 invariant [C16] @opened: forall k int, m int :: {$range[k].Postings[m]} 0 <= k && k < len($range) && 0 <= m && m < len($range[k].Postings) && isValuation($range[k].Postings[m].Account)
+//@        ==> ($range[k].Postings[m].Account in openValAccounts)
 //@   loop 5 invariant [C16] @each: 0 <= $i && $i <= len($range) && $range == day.Transactions && okDay(day) && c != nil && openValAccounts != nil && tlen() == entry(tlen()) + $i
 //@        && (forall k int :: {$range[k]} 0 <= k && k < $i ==> targ("writeTrx", 1, entry(tlen()) + k) == $range[k])
 //@   loop 6 invariant 0 <= $i && $i <= len($range) && tlen() == entry(tlen()) && c != nil && openValAccounts != nil
